@@ -20,6 +20,7 @@ TRUSTED = ["Coq 8.16.1 kernel + vm_compute", "Rust executor /verif/harness (Rat 
            "hand-written Gallina model coq/Model/Tridiag.v tied to src/tridiagonal.rs by differential execution (Rat vs Qc exact incl. panic class "
            "and refusal message code; f64/Complex vs primitive floats)"]
 ASSUMPTIONS = ["Rust semantics of Vec/usize as modelled (checked indexing, debug overflow checks)",
+               "thomas_dominant_never_refuses is stated over Coq's reals and uses the standard-library real-number axioms (sig_forall_dec, functional_extensionality_dep); every other theorem is closed under the global context",
                "the sampled cases are where model and code were compared; the theorems are about the model",
                "f64 backward stability for diagonally dominant systems is searched (1e-11 normwise), not proved"]
 UNPROVED = ["backward stability of the f64/Complex<f64> instantiation of Thomas on diagonally dominant systems (tie + search only)",
@@ -255,6 +256,10 @@ def generate(rng, tier):
         for elt in ['rat', 'rat', 'rat', 'rat', 'f64', 'cplx'] * rep:
             t = rtri(g, elt, n, pzero=3)
             cases.append(mk(elt, "solve", {"t": t, "r": [val(g, elt) for _ in range(n)]}, "solve-random-" + elt, n >= 2))
+        for _ in range(3 * rep):       # non-dominant exact systems that mostly do get solved (non-zero diagonal, few zero off-diagonals)
+            sub, main, sup = rtri(g, 'rat', n, pzero=1)
+            main = [val(g, 'rat', nz=True) for _ in range(n)]
+            cases.append(mk('rat', "solve", {"t": (sub, main, sup), "r": [val(g, 'rat') for _ in range(n)]}, "solve-random-nzdiag-rat", n >= 2))
         for k in range(n):
             for _ in range(rep):
                 t = force_zero_pivot(g, n, k)
@@ -354,8 +359,28 @@ def valid_shape(t):
     n = len(t[1])
     return n >= 1 and len(t[0]) == n - 1 and len(t[2]) == n - 1
 
+COV = {}
+def _count(key):
+    COV[key] = COV.get(key, 0) + 1
+
+def extra_coverage():
+    """measured outcome distribution of the generated inputs (what the implementation answered)"""
+    return {"outcomes": dict(sorted(COV.items()))}
+
 def oracle(case, items):
     try:
+        k = case.meta.get("kind")
+        if k == "solve":
+            n = len(case.meta["t"][1])
+            if items and items[-1][0] == 'P':
+                code = items[0][1] if items[0][0] == 'i' else -1
+                what = {1: "refused:leading-diagonal", 2: "refused:later-pivot", 3: "refused:size-mismatch"}.get(code, "panic:" + items[-1][1])
+                _count("solve %s %s" % (case.elt, what))
+                if "zero_at" in case.meta: _count("solve zero pivot forced at step k=%d" % case.meta["zero_at"])
+            else:
+                _count("solve %s ok n=%s" % (case.elt, "1" if n == 1 else ("2" if n == 2 else "3..12")))
+        elif k in ("mul", "views", "arith", "sets"):
+            _count("%s %s %s" % (k, case.elt, "panic" if (items and items[-1][0] == 'P' and len(items) == 1) else "answered"))
         return _oracle(case, items)
     except Mis as e:
         return "answer does not have the shape the property demands: %s" % e
